@@ -612,6 +612,9 @@ class Interp:
                 finally:
                     self.path.guards.pop()
                 return SV(BOOL, z3.Implies(a, b) if f.id == 'implies' else (a == b))
+        if isinstance(f, ast.Name) and f.id in getattr(self.world, 'dropped_names', ()):
+            self.dropped.append(f'{f.id}(...) line {node.lineno}')
+            return None
         if isinstance(f, ast.Attribute) and isinstance(f.value, ast.Name):
             ns = None
             try:
@@ -649,6 +652,9 @@ class Interp:
                 kwargs['**'] = self.eval(kw.value, scope)
                 continue
             kwargs[kw.arg] = self.eval(kw.value, scope)
+        if isinstance(kwargs.get('**'), dict):
+            extra = kwargs.pop('**')
+            kwargs.update(extra)
         return self.call(func, args, kwargs, node)
 
     def eval_old(self, expr, scope):
@@ -1256,7 +1262,15 @@ class Interp:
         scope.set(st.name, SFunc(st, scope, st.name))
 
     def s_Import(self, st, scope):
-        raise Undecided('import inside a function')
+        for a in st.names:
+            if (a.asname or a.name.split('.')[0]) not in self.world.globals:
+                raise Undecided(f'import of {a.name} inside a function')
+
+    def s_ImportFrom(self, st, scope):
+        # a local import of names the world already provides (library contracts) is a no-op
+        for a in st.names:
+            if (a.asname or a.name) not in self.world.globals:
+                raise Undecided(f'import of {a.name} inside a function')
 
     def s_Try(self, st, scope):
         # the finally block runs for Python-level exits only (normal, raise, return, break, continue);
